@@ -57,7 +57,7 @@ func init() {
 		ID:           "C09",
 		Run:          Run,
 		MaxSteps:     60000,
-		QuickRuns:    6000,
+		QuickRuns:    4000,
 		ThoroughSecs: 600,
 		Rule: "one run = one generated router configuration (routes, criteria, port representations, domain/prefix set files, resolvers, " +
 			"defaults) and 8..24 generated requests aimed at satisfying or narrowly missing one of its routes, executed under one seeded schedule; " +
